@@ -309,7 +309,10 @@ def worker(args):
 def owns(owners, oracle):
     """owners: list of oracle names / prefixes owned by the checked property"""
     for o in owners:
-        if oracle == o or oracle.startswith(o + '.') or \
+        if o.startswith('*'):
+            if oracle.endswith(o[1:]):
+                return True
+        elif oracle == o or oracle.startswith(o + '.') or \
                 (o.endswith('*') and oracle.startswith(o[:-1])):
             return True
     return False
